@@ -433,3 +433,139 @@ Fixpoint run_ticker (os : nat -> bool) (n : nat) (s : tsys) : tsys :=
 (** ProgressBar::tick_inner (:225-230) + BarState::tick (state.rs:143-146) on the spinner tick *)
 Definition tick_inner (slot_is_none : bool) (tk : N) : N :=
   if slot_is_none then sat_add64 tk 1 else tk.
+
+(* ------------------------------------------------------------------ Part 4 *)
+(** Correspondence checkers (harness/src/bin/c08.rs).  The table of footprints is a parameter:
+    the shards pass gen/LockFootprints.all_footprints and ticker_body. *)
+
+Fixpoint fp_lookup (name : String.string) (tbl : list (String.string * list caction)) : option (list caction) :=
+  match tbl with
+  | [] => None
+  | (n, p) :: r => if String.eqb n name then Some p else fp_lookup name r
+  end.
+
+(** one public call of a scenario: method name, bar id, multi id, ticker id (= stop cell = pool
+    index of the ticker thread an enable_steady_tick spawns) *)
+Definition scall : Type := (String.string * nat * nat * nat)%type.
+
+Definition scall_prog (tbl : list (String.string * list caction)) (c : scall) : option (list action) :=
+  let '(name, b, m, k) := c in
+  match fp_lookup name tbl with
+  | Some p => Some (map (inst b m k) p)
+  | None => None
+  end.
+
+Fixpoint thread_prog (tbl : list (String.string * list caction)) (cs : list scall) : option (list action) :=
+  match cs with
+  | [] => Some []
+  | c :: r => match scall_prog tbl c, thread_prog tbl r with
+              | Some p, Some q => Some (p ++ q)
+              | _, _ => None
+              end
+  end.
+
+Fixpoint repeat_list {A} (n : nat) (l : list A) : list A :=
+  match n with O => [] | S n' => l ++ repeat_list n' l end.
+
+(** boolean well-formedness of a pool (implies WF, LocksProofs.pool_okb_WF) *)
+Definition spawns_okb (ths : list thread) (p : list action) : bool :=
+  forallb (fun a => match a with
+                    | Spawn _ u => match nth_error ths u with
+                                   | Some tu => worker_ok (code tu)
+                                   | None => false
+                                   end
+                    | _ => true
+                    end) p.
+Definition pool_okb (ths : list thread) : bool :=
+  forallb (fun t => match held t with [] => true | _ => false end && ordered_from [] (code t)) ths &&
+  forallb (fun t => spawns_okb ths (code t)) ths.
+
+(** deterministic scheduler: the first enabled thread at or after a rotating offset; stops when
+    nothing is enabled *)
+Fixpoint first_enabled (s : state) (cands : list nat) : option (nat * state) :=
+  match cands with
+  | [] => None
+  | i :: r => match step s i with Some s' => Some (i, s') | None => first_enabled s r end
+  end.
+Fixpoint run_all (fuel : nat) (seed : nat) (s : state) : state :=
+  match fuel with
+  | O => s
+  | S f =>
+      let n := length (threads s) in
+      let off := match n with O => O | _ => Nat.modulo (seed + f * 7) n end in
+      let cands := map (fun j => Nat.modulo (j + off) (match n with O => 1 | _ => n end)) (seq 0 n) in
+      match first_enabled s cands with
+      | Some (_, s') => run_all f seed s'
+      | None => s
+      end
+  end.
+Definition all_done (s : state) : bool := negb (existsb unfinished (threads s)).
+
+Inductive life_event := EvDisable | EvReplace | EvDropLast | EvFinish | EvFinishNoWake.
+
+Definition stop_labels : list label := [LLockStop; LSetStop; LUnlockStop; LNotify].
+Definition life_labels (e : life_event) : list label :=
+  match e with
+  | EvDisable | EvReplace => stop_labels
+  | EvDropLast => LDropHandle :: stop_labels
+  | EvFinish => [LLockBar; LFinish; LUnlockBar] ++ stop_labels
+  | EvFinishNoWake => [LLockBar; LFinish; LUnlockBar]      (* the code before 6022e97 *)
+  end.
+(** a ticker parked in its first wait, then the event, then the ticker alone with the time-out
+    oracle answering [timeout_fires] (plus the wake-up it causes): has it exited? *)
+Definition life_exits (e : life_event) (timeout_fires : bool) : bool :=
+  let s0 := run_ticker (fun _ => false) 8 (tinit false 1 false) in
+  match lrun (life_labels e) s0 with
+  | None => false
+  | Some s1 =>
+      let s2 := if timeout_fires then match lstep LWake s1 with Some s => s | None => s1 end else s1 in
+      match pc (run_ticker (fun _ => timeout_fires) (exit_bound + exit_bound) s2) with
+      | TDone => true
+      | _ => false
+      end
+  end.
+
+Inductive c08case :=
+| CScenario (users : list (list scall)) (workers : list (nat * nat)) (iters : nat) (seed : nat)
+            (completed : bool)
+  (* the implementation ran these call sequences on real threads; [completed] = no watchdog *)
+| CLife (e : life_event) (interval_ms window_ms : N) (exited : bool)
+  (* the ticker thread was gone [window_ms] after the event *)
+| CManualTick (installed : bool) (manual_ticks : nat) (tick_before tick_after : N).
+  (* spinner tick observed before / after [manual_ticks] calls of tick() *)
+
+Definition scenario_pool (tbl : list (String.string * list caction)) (body : list caction)
+    (users : list (list scall)) (workers : list (nat * nat)) (iters : nat) : option (list thread) :=
+  let nu := length users in
+  let fix go (us : list (list scall)) : option (list thread) :=
+    match us with
+    | [] => Some []
+    | u :: r => match thread_prog tbl u, go r with
+                | Some p, Some ts => Some ({| started := true; held := []; code := p |} :: ts)
+                | _, _ => None
+                end
+    end in
+  match go users with
+  | None => None
+  | Some uts =>
+      Some (uts ++
+            map (fun '(j, (b, m)) =>
+                   {| started := false; held := [];
+                      code := repeat_list iters (map (inst b m (nu + j)) body) |})
+                (combine (seq 0 (length workers)) workers))
+  end.
+
+Definition c08_check (tbl : list (String.string * list caction)) (body : list caction) (c : c08case) : bool :=
+  match c with
+  | CScenario users workers iters seed completed =>
+      match scenario_pool tbl body users workers iters with
+      | None => false                      (* a call the generated table does not know *)
+      | Some ths =>
+          let total := fold_right (fun t a => length (code t) + a) 0 ths in
+          pool_okb ths && Bool.eqb (all_done (run_all (S total) seed (init ths))) completed
+      end
+  | CLife e interval window exited =>
+      Bool.eqb (life_exits e (N.leb interval window)) exited
+  | CManualTick installed n before after =>
+      N.eqb (Nat.iter n (tick_inner (negb installed)) before) after
+  end.
